@@ -64,7 +64,7 @@ def run(tier):
     ck.coverage["programs_checked"] = checked
     ck.coverage["programs_discarded_by_model"] = discarded
     return ck.finish("programs from the expr / expr-illtyped / ctrl profiles of the grammar-directed generator, each "
-                     "compared with the reference model on printed texts, outcome, error class and messages; "
+                     "compared with the reference model on printed texts, outcome, error class and messages; plus an exhaustive small-scope index sweep (13 sequences x every integer / range / odd index, index stores) and failing statements of 31 forms followed by probes of what they might have touched; "
                      "non-trivial = distinct program that printed at least one line")
 
 
